@@ -1,0 +1,12 @@
+// SPDX-FileCopyrightText: 2020 Alvar Penning
+//
+// SPDX-License-Identifier: GPL-3.0-or-later
+
+//go:build !verif
+// +build !verif
+
+package agent
+
+// verifSchedPoint marks a point between two steps of an operation on state shared between goroutines. It does nothing
+// in regular builds.
+func verifSchedPoint(string) {}
